@@ -718,6 +718,8 @@ struct Counting<S: MetricSink> {
     /// while set, an emit that has been entered waits before it reaches the wrapped buffered sink (stands for
     /// "the queue's thread was descheduled between taking the metric and handing it over")
     hold: Arc<std::sync::atomic::AtomicBool>,
+    /// while `hold` is set: one waiting emit may pass per permit
+    permits: Arc<AtomicU64>,
     entered: Arc<AtomicU64>,
     /// number of emits the wrapped (buffered) sink answered with Ok
     inner_ok: Arc<AtomicU64>,
@@ -736,6 +738,10 @@ impl<S: MetricSink> MetricSink for Counting<S> {
         self.entered.fetch_add(1, Ordering::SeqCst);
         let t0 = std::time::Instant::now();
         while self.hold.load(Ordering::SeqCst) && t0.elapsed().as_secs() < 90 {
+            let p = self.permits.load(Ordering::SeqCst);
+            if p > 0 && self.permits.compare_exchange(p, p - 1, Ordering::SeqCst, Ordering::SeqCst).is_ok() {
+                break;
+            }
             std::thread::yield_now();
         }
         let r = self.inner.emit(m);
@@ -784,7 +790,7 @@ fn mode_delegate_faults(j: &mut Judge) {
         let (rx, spy) = BufferedSpyMetricSink::with_capacity(Some(chan), Some(cap));
         let done = Arc::new(AtomicU64::new(0));
         let inner_ok = Arc::new(AtomicU64::new(0));
-        let counting = Counting { inner: spy, done: done.clone(), hold: Arc::new(std::sync::atomic::AtomicBool::new(false)), entered: Arc::new(AtomicU64::new(0)), inner_ok: inner_ok.clone() };
+        let counting = Counting { inner: spy, done: done.clone(), hold: Arc::new(std::sync::atomic::AtomicBool::new(false)), permits: Arc::new(AtomicU64::new(0)), entered: Arc::new(AtomicU64::new(0)), inner_ok: inner_ok.clone() };
         let qvariant = r.below(5);
         let client = match qvariant {
             0 => StatsdClient::from_sink("", counting),
@@ -948,7 +954,8 @@ fn mode_delegate(j: &mut Judge) {
         let done = Arc::new(AtomicU64::new(0));
         let hold = Arc::new(std::sync::atomic::AtomicBool::new(false));
         let entered = Arc::new(AtomicU64::new(0));
-        let counting = Counting { inner: spy, done: done.clone(), hold: hold.clone(), entered: entered.clone(), inner_ok: Arc::new(AtomicU64::new(0)) };
+        let permits = Arc::new(AtomicU64::new(0));
+        let counting = Counting { inner: spy, done: done.clone(), hold: hold.clone(), permits: permits.clone(), entered: entered.clone(), inner_ok: Arc::new(AtomicU64::new(0)) };
         // every way of building the queuing wrapper must delegate flush (and must not lose it behind an error handler)
         let qvariant = r.below(4);
         // a SECOND client shares the sink (a clone of the queuing sink, or an Arc around the buffered sink) and goes away
@@ -1017,16 +1024,28 @@ fn mode_delegate(j: &mut Judge) {
                 let key = String::from_utf8(unique_metric(k, klen)).unwrap().replace('.', "_");
                 // sometimes the flush lands while the queue's thread holds a metric it has taken but not handed over yet
                 let racy = through_queue && r.chance(1, 3);
+                // ... and sometimes further metrics are accepted by the queue meanwhile: they wait BEHIND the held one, the
+                // buffered sink has not seen them, and a flush still has to write what the buffered sink did accept
+                let backlog = if racy && r.chance(1, 2) { r.range(1, 3) as usize } else { 0 };
                 if racy {
+                    permits.store(0, Ordering::SeqCst);
                     hold.store(true, Ordering::SeqCst);
                 }
                 let res = panics::guard(|| client.gauge(&key, v));
+                let mut extras = Vec::new();
+                let mut held = false;
                 if racy {
                     let t0 = std::time::Instant::now();
                     while entered.load(Ordering::SeqCst) < sent + 1 && t0.elapsed().as_secs() < 60 {
                         std::thread::yield_now();
                     }
                     if entered.load(Ordering::SeqCst) >= sent + 1 {
+                        held = true;
+                        for b in 0..backlog {
+                            let key2 = String::from_utf8(unique_metric(k + 1000 * (b + 1), r.range(1, (cap / 2).max(2) as u64) as usize)).unwrap().replace('.', "_");
+                            let v2 = r.u64_any_width();
+                            extras.push(panics::guard(|| client.gauge(&key2, v2)));
+                        }
                         let nfl = r.range(1, 2);
                         for _ in 0..nfl {
                             let fres = match panics::guard(|| client.flush()) {
@@ -1041,33 +1060,53 @@ fn mode_delegate(j: &mut Judge) {
                             steps.push(Step { op: Op::Flush, attempts, res: fres });
                         }
                         j.rep.obs("flushes_while_the_queue_thread_held_a_taken_metric", nfl);
+                        if backlog > 0 {
+                            j.rep.obs("flushes_with_metrics_still_queued_behind_the_held_one", nfl);
+                        }
+                        // the held metric goes through alone (one permit), the queued ones follow one by one
+                        permits.fetch_add(1, Ordering::SeqCst);
+                    } else {
+                        hold.store(false, Ordering::SeqCst);
                     }
-                    hold.store(false, Ordering::SeqCst);
                 }
-                match res {
-                    Ok(Ok(m)) => {
-                        sent += 1;
-                        if !wait_done(sent) {
-                            j.rep.inconclusive("delegate: the queuing sink did not hand a metric over within 60 s");
-                            return;
+                let mut all = vec![res];
+                all.extend(extras);
+                let mut broke = false;
+                for (ri, res) in all.into_iter().enumerate() {
+                    if ri > 0 && held {
+                        permits.fetch_add(1, Ordering::SeqCst);
+                    }
+                    match res {
+                        Ok(Ok(m)) => {
+                            sent += 1;
+                            if !wait_done(sent) {
+                                j.rep.inconclusive("delegate: the queuing sink did not hand a metric over within 60 s");
+                                return;
+                            }
+                            let text = m.as_metric_str().as_bytes().to_vec();
+                            let n = text.len();
+                            let mut attempts = Vec::new();
+                            while let Ok(b) = rx.try_recv() {
+                                attempts.push(Attempt { bytes: Some(b), out: AOut::Ok });
+                            }
+                            steps.push(Step { op: Op::Emit(text), attempts, res: Res::OkN(n) });
                         }
-                        let text = m.as_metric_str().as_bytes().to_vec();
-                        let n = text.len();
-                        let mut attempts = Vec::new();
-                        while let Ok(b) = rx.try_recv() {
-                            attempts.push(Attempt { bytes: Some(b), out: AOut::Ok });
+                        Ok(Err(e)) => {
+                            j.rep.inconclusive(format!("delegate: unexpected emit error {}", e));
+                            hist_ok = false;
+                            broke = true;
+                            break;
                         }
-                        steps.push(Step { op: Op::Emit(text), attempts, res: Res::OkN(n) });
+                        Err(p) => {
+                            steps.push(Step { op: Op::Emit(vec![]), attempts: vec![], res: Res::Panicked(p) });
+                            broke = true;
+                            break;
+                        }
                     }
-                    Ok(Err(e)) => {
-                        j.rep.inconclusive(format!("delegate: unexpected emit error {}", e));
-                        hist_ok = false;
-                        break;
-                    }
-                    Err(p) => {
-                        steps.push(Step { op: Op::Emit(vec![]), attempts: vec![], res: Res::Panicked(p) });
-                        break;
-                    }
+                }
+                hold.store(false, Ordering::SeqCst);
+                if broke {
+                    break;
                 }
             }
         }
